@@ -376,10 +376,16 @@ def run(ctx):
                          f"a kernel without any device-visible statement or dynamic call is answered {ans} (position: {tname})")
             # the same kernel after spec injection - compiled with the spec, and injected after it had been compiled (a kernel that already
             # carries the hints of an earlier compilation): injecting constants adds neither device statements nor dynamic calls
-            for variant in ("compiled with arch_spec", "InjectSpecsPass applied after compilation"):
+            for variant in ("compiled with arch_spec", "HintZone applied after compilation", "InjectSpecsPass applied after compilation"):
                 try:
                     if variant == "compiled with arch_spec":
                         m2 = define_template(tsrc, stext, main_dec="(arch_spec=S)", S=S)[0]
+                    elif variant == "HintZone applied after compilation":
+                        # the package's other analysis pass annotates the same kernel first: it adds its own hints and is a reader otherwise
+                        from bloqade.shuttle.passes.hint_zone import HintZone
+                        from bloqade.shuttle.prelude import move as _move
+                        m2 = define_template(tsrc, stext)[0]
+                        HintZone(_move, arch_spec=S)(m2)
                     else:
                         from bloqade.shuttle.passes.inject_spec import InjectSpecsPass
                         from bloqade.shuttle.prelude import move as _move
@@ -441,6 +447,11 @@ def replay(data):
     if inp.get("variant") and inp.get("position") in templates():
         if inp["variant"] == "compiled with arch_spec":
             m2 = define_template(templates()[inp["position"]], stmts[inp["statement"]], main_dec="(arch_spec=S)", S=S)[0]
+        elif inp["variant"] == "HintZone applied after compilation":
+            from bloqade.shuttle.passes.hint_zone import HintZone
+            from bloqade.shuttle.prelude import move as _move
+            m2 = define_template(templates()[inp["position"]], stmts[inp["statement"]])[0]
+            HintZone(_move, arch_spec=S)(m2)
         else:
             from bloqade.shuttle.passes.inject_spec import InjectSpecsPass
             from bloqade.shuttle.prelude import move as _move
